@@ -271,6 +271,16 @@ pub fn run(ctx: &Ctx) -> (Spec, Report) {
                     prog.items.sort_by(|x, y| x.mods.cmp(&y.mods));
                 }
             }
+            // items declared inside function bodies and anonymous const blocks are annotated items like any other
+            if rng.chance(1, 3) {
+                let container = *rng.pick(&["fn_local_items", "constblock"]);
+                for it in prog.items.iter_mut() {
+                    if it.mods.is_empty() && it.rename.is_none() && rng.chance(1, 3) {
+                        it.mods = vec![container.to_string()];
+                    }
+                }
+                prog.items.sort_by(|x, y| x.mods.cmp(&y.mods));
+            }
             let src = prog.render(rng, &RenderOpts { vary: true, prelude: false, strip_typeshare: false });
             // a third of the files in a layout where no attribute starts its line
             let layout = if rng.chance(1, 3) { rng.range(1, 4) } else { 0 };
@@ -383,7 +393,7 @@ pub fn run(ctx: &Ctx) -> (Spec, Report) {
     }
     let spec = Spec {
         level: "exploration",
-        rule: format!("{n} generated files mixing annotated and un-annotated items at module depth 0-4, a quarter of them with two structs of one Rust identifier in two modules (different serde names), #[typeshare] / #[typeshare::typeshare] / with arguments, serde(skip) / typeshare(skip) on random subsets of fields, variants and struct-variant fields, any attribute order, five source layouts (rustfmt-like, attribute behind another attribute or a block comment on the same line, all attributes and the item on one line, CRLF + tabs), x up to 6 languages; definitions and members are attributed to source elements by unique stems and compared with the generator's item list (count, kind, order); decoy and skipped stems are searched over the whole output; plus the real binary with the input named twice (same directory twice, a directory and one of its sub-directories, in both orders): byte-identical to naming it once; plus 'cannot be generated' cells (const / union / DateTime per backend): error or definition, never success without definition; distinct = (language, item kind, module depth, annotation spelling) and (language, struct-variant, has-skipped)"),
+        rule: format!("{n} generated files mixing annotated and un-annotated items at module depth 0-4 and inside function bodies / anonymous const blocks, a quarter of them with two structs of one Rust identifier in two modules (different serde names), #[typeshare] / #[typeshare::typeshare] / with arguments, serde(skip) / typeshare(skip) on random subsets of fields, variants and struct-variant fields, any attribute order, five source layouts (rustfmt-like, attribute behind another attribute or a block comment on the same line, all attributes and the item on one line, CRLF + tabs), x up to 6 languages; definitions and members are attributed to source elements by unique stems and compared with the generator's item list (count, kind, order); decoy and skipped stems are searched over the whole output; plus the real binary with the input named twice (same directory twice, a directory and one of its sub-directories, in both orders): byte-identical to naming it once; plus 'cannot be generated' cells (const / union / DateTime per backend): error or definition, never success without definition; distinct = (language, item kind, module depth, annotation spelling) and (language, struct-variant, has-skipped)"),
         assumptions: vec!["stems (q + 5 letters, no other 'q' in generated words) identify source elements after case conversion".into()],
         exhaustive: None,
     };
